@@ -275,9 +275,17 @@ def row_rt(iv: int, bv: bytes, sv: str) -> bool:
                 mv, mpl, mdec = value_for(mk, iv, bv, sv, P["sel"])
                 m_is_list = isinstance(getattr(member, md.attr_name, None), list)
                 setattr(member, md.attr_name, [mv] if m_is_list else mv)
-                inner = ref_avp(md.avp_code, md.vendor_id, 0x40 if _mand(md, me) else 0, mpl)
-            else:
+                mine_b = ref_avp(md.avp_code, md.vendor_id, 0x40 if _mand(md, me) else 0, mpl)
+                # the container's own defaults (some containers pre-fill nested members) stay where their rows put them
+                defaults = {(a.code, a.vendor_id): a.as_bytes() for a in generate_avps_from_defs(cont())}
                 inner = b""
+                for rd in rows_of(cont):
+                    if rd is md:
+                        inner += mine_b
+                    elif (rd.avp_code, rd.vendor_id) in defaults and (rd.avp_code, rd.vendor_id) != (md.avp_code, md.vendor_id):
+                        inner += defaults[(rd.avp_code, rd.vendor_id)]
+            else:
+                inner = b"".join(a.as_bytes() for a in generate_avps_from_defs(cont()))
             value = member
             exp_payloads = [inner]
         else:
